@@ -203,7 +203,10 @@ class Request(HTTPConnection):
             charset = self.content_type.options.get("charset", "utf8")
             if "boundary" not in self.content_type.options:
                 raise MalformedMultipart("Missing boundary in header content-type")
-            boundary = self.content_type.options["boundary"].encode("latin-1")
+            try:
+                boundary = self.content_type.options["boundary"].encode("latin-1")
+            except UnicodeEncodeError:
+                raise MalformedMultipart("Invalid boundary in header content-type")
             return self._parse_multipart(boundary, charset)
         if self.content_type == "application/x-www-form-urlencoded":
             data = self.body
